@@ -438,6 +438,57 @@ func predPipe(c Case) (r Result) {
 	} else {
 		r.class("pipe.error")
 	}
+	// the same pipe evaluated once per element of an array of documents (same shape, other
+	// values; null; the document again): element i must get Search(B, Search(A, d_i)), and the
+	// whole is an error exactly when some element's pipe is. (An implementation that decides
+	// something about a pipe at its first evaluation and reuses it for the next element.)
+	docs := []interface{}{ref.DeepCopy(doc), varyDoc(doc, 2), nil, varyDoc(doc, 4), []interface{}{}, ref.DeepCopy(doc)}
+	per := "map(&(" + composed + "), @)"
+	wantAll := make([]interface{}, 0, len(docs))
+	perErr := false
+	for _, d := range docs {
+		s1 := libSearch(a, ref.DeepCopy(d))
+		if s1.Panic != nil || (s1.Err == nil && !isJSONData(s1.Val)) {
+			return
+		}
+		if s1.Err != nil {
+			perErr = true
+			break
+		}
+		s2 := libSearch(b, s1.Val)
+		if s2.Panic != nil {
+			return
+		}
+		if s2.Err != nil {
+			perErr = true
+			break
+		}
+		wantAll = append(wantAll, s2.Val)
+	}
+	if pn, pst, pe := ref.ParseText(per); pe == nil && pst == ref.LexOK {
+		pev := &ref.Ev{}
+		pw, _ := pev.Eval(pn, ref.DeepCopy(docs))
+		if pev.Ambiguous {
+			return
+		}
+		got := libSearch(per, ref.DeepCopy(docs))
+		if got.Panic != nil {
+			r.Violation = "Search panicked on the per-element pipe"
+			r.Got = showOut(got)
+			return
+		}
+		if (got.Err != nil) != perErr {
+			r.Violation = "a pipe evaluated once per element is an error exactly when the pipe of some element is: violated"
+			r.Expected, r.Got = fmt.Sprintf("error: %v", perErr), showOut(got)
+			return
+		}
+		if got.Err == nil && !sameModuloOrder(got.Val, wantAll, pw) {
+			r.Violation = "a pipe evaluated once per element differs from Search(B, Search(A, element))"
+			r.Expected, r.Got = show(wantAll), show(got.Val)
+			return
+		}
+		r.class("pipe.per-element")
+	}
 	return
 }
 
